@@ -176,30 +176,100 @@ def kf_class(reset):
     return "none"
 
 
+NEG = -10 ** 5
+
+
+def seq_mirror(reset, trace, offset=None):
+    """Replays KeepstoreGCContract's bookkeeping on a SEQUENTIAL trace (one request at a time, a scan after each).
+    Returns (info at the scan with 1-based index `offset`, list of GETs that failed inside the protected period).
+    info = {"fails": set of ScanOk clauses that fail there, "lastop", "vanished": [volume index..], "seen": previous
+    scan, "now", "over": volumes on which an untrash ran while a block file and a trashed copy were both present}."""
+    ttl, life, trash = reset.get("ttl", 2), reset.get("life", 0), reset.get("trash", True)
+    ro = set(k for k, b in enumerate(reset.get("ro") or []) if b)
+    seen = reset.get("vols") or []
+    n = len(seen)
+    wr = [k for k in range(n) if k not in ro]
+    now, tscan = 0, 0
+    prot = max([v["mtu"] + ttl for v in seen if v["st"] == "intact"], default=NEG)
+    ent, emp_at, unt, must, gc = set(), NEG, False, False, False
+    over = set()
+    call, t0, lastop = None, 0, None
+    bad_gets = []
+    info = None
+    for i, ev in enumerate(trace[1:], 2):
+        kind = ev["ev"]
+        if kind == "tick":
+            now += ev["d"]
+        elif kind == "call":
+            call, t0 = ev, now
+            if ev["op"] == "untrash":
+                over |= set(k for k in wr if seen[k]["st"] != "absent" and seen[k]["tr"])
+        elif kind == "ret" and call is not None:
+            op, st = call["op"], ev.get("status")
+            lastop = op
+            live = any(d > now for k in wr for d in seen[k]["tr"])
+            if op in ("put", "touch") and st == 200:
+                prot = max(prot, t0 + ttl)
+            elif op == "get" and now < prot and any(v["st"] == "intact" for v in seen) and st != 200:
+                bad_gets.append({"scn": reset.get("scn"), "status": st})
+            elif op == "delete":
+                gc = True
+                if trash:
+                    ent |= set(wr)
+            elif op == "trashlist":
+                gc = True
+                if trash:
+                    ent |= set(k for k in wr if call.get("mount", 0) in (0, k + 1)
+                               and ((seen[k]["st"] != "absent" and seen[k]["mt"] == call.get("req")) or unt))
+            elif op == "empty":
+                gc = True
+                emp_at = max(emp_at, now)
+            elif op == "untrash":
+                unt = True
+                must = must or live
+        elif kind == "scan":
+            s = ev["vols"]
+            fails = set()
+            if now < prot and all(v["st"] == "absent" for v in s):
+                fails.add("a")
+            vanished = [k for k in range(n) if seen[k]["st"] != "absent" and s[k]["st"] == "absent"]
+            if gc and any(k not in ent for k in vanished):
+                fails.add("b")
+            for k in range(n):
+                if any(d < tscan + life for d in set(s[k]["tr"]) - set(seen[k]["tr"])):
+                    fails.add("c")
+                if any(d > emp_at and not unt for d in set(seen[k]["tr"]) - set(s[k]["tr"])):
+                    fails.add("d")
+            if must and not ent and all(v["st"] == "absent" for v in s):
+                fails.add("e")
+            if i == offset:
+                info = {"fails": fails, "lastop": lastop, "vanished": vanished, "seen": seen, "now": now,
+                        "over": set(over), "ttl": ttl}
+            over -= set(k for k in range(n) if s[k]["st"] == "absent")
+            seen, tscan = s, now
+            ent, emp_at, unt, must, gc = set(), NEG, False, False, False
+    return info, bad_gets
+
+
 def hist_class(reset, trace, offset):
     """History class of a rejected sequential random trace (offset = 1-based index of the rejected event).
-    C04-2-untrash-overwrites: the rejected event is a scan, and before it an untrash ran while a block file and a
-    trashed copy were both present on a writable volume (Untrash renames the trashed copy, with its old timestamp,
-    OVER the block file), with no PUT/TOUCH acknowledged between that untrash and the rejected scan."""
-    seen = reset.get("vols") or []
-    ro = reset.get("ro") or []
-    stale = False
-    op = None
-    for i, ev in enumerate(trace[1:], 2):
-        if i == offset:
-            return "C04-2-untrash-overwrites" if (ev["ev"] == "scan" and stale) else "none"
-        if ev["ev"] == "call":
-            op = ev["op"]
-            if op == "untrash":
-                for k, v in enumerate(seen):
-                    if not (k < len(ro) and ro[k]) and v["st"] != "absent" and v["tr"]:
-                        stale = True
-        elif ev["ev"] == "ret":
-            if op in ("put", "touch") and ev.get("status") == 200:
-                stale = False
-        elif ev["ev"] == "scan":
-            seen = ev["vols"]
-    return "none"
+    C04-2-untrash-overwrites needs ALL of: the rejected event is a scan at which clause (a) fails and no other
+    clause does; the request directly before it was a DELETE or a trash-list item; every replica that vanished
+    carried an OLD timestamp in the scan before (mtu + ttl <= now: by its timestamp the removal was legitimate); and
+    at least one of them was on a volume where an untrash had run while a block file and a trashed copy were both
+    present (Untrash renames the trashed copy, with its old timestamp, OVER the block file) and which has held a
+    file ever since."""
+    ev = trace[offset - 1] if 0 < offset <= len(trace) else {}
+    if ev.get("ev") != "scan":
+        return "none"
+    info, _ = seq_mirror(reset, trace, offset)
+    if not info or info["fails"] != {"a"} or info["lastop"] not in ("delete", "trashlist") or not info["vanished"]:
+        return "none"
+    if any(info["seen"][k]["mtu"] + info["ttl"] > info["now"] for k in info["vanished"]):
+        return "none"
+    if not any(k in info["over"] for k in info["vanished"]):
+        return "none"
+    return "C04-2-untrash-overwrites"
 
 
 def run(ctx):
@@ -309,6 +379,14 @@ def run(ctx):
     if bad_index:
         ctx.drift.append("beyond C04 (C02's index clause): %d GET /index responses listed something that is not a "
                          "complete block, first: %s" % (len(bad_index), json.dumps(bad_index[0])[:200]))
+    # A GET that fails inside the protected period while an intact copy was seen is C01's business: drift here
+    bad_gets = []
+    for t in traces:
+        if t[0].get("mode") == "random":
+            bad_gets += seq_mirror(t[0], [e for e in t if e.get("ev") != "index"])[1]
+    if bad_gets:
+        ctx.drift.append("beyond C04 (C01's obligation): %d GETs of a protected block with an intact copy did not "
+                         "answer 200, first: %s" % (len(bad_gets), json.dumps(bad_gets[0])))
     judge_all(ctx, [ev for ev in events if ev.get("ev") != "index"], scenario_of)
 
     # evidence
